@@ -192,6 +192,19 @@ CHECKS['C11'] = (
     'Jointly unsatisfiable mixed LOOSE/STRICT lists are unjudged; parallel links are not in the alphabet.',
     'DESIGN.md 3/C11')
 
+CHECKS['C12'] = (
+    'exhaustive enumeration of two-request synchronisation groups (every ordered pair of source/destination pairs x include '
+    'variants) and of group structures over site graphs from the graph atlas, brute-force oracle over all pairs of simple paths',
+    'For connected graphs on 3-5 ROADM sites x length assignments x link styles, every ordered pair of (source, destination) '
+    'pairs forms a disjunction group with every combination of include variants (none, STRICT ROADM, LOOSE ROADM, STRICT fibre '
+    'inside an OMS) on both requests and is routed by the real front half of planning(); soundness (DisjunctionError, or '
+    'pairwise link-disjoint valid STRICT-respecting paths) and completeness (a solution is found iff brute force over all '
+    'pairs of simple paths finds one) are judged. Triples, overlapping pairs (shared request first / last), chains, duplicated '
+    'groups and pair + unrelated request are judged for soundness.',
+    'A link is the unordered pair of consecutive ROADMs; parallel links are not in the alphabet; completeness is claimed for a '
+    'single pair only, as in the property.',
+    'DESIGN.md 3/C12')
+
 ALL = [f'C{i:02d}' for i in range(1, 21)]
 NOT_BUILT_REASON = 'check not built yet in this round (planned, see DESIGN.md section 3); not claimed until it runs'
 
